@@ -78,7 +78,7 @@ pub fn gen_cases(prop: &str, tier: &str, seed: u64, rep: &mut Report) -> Vec<Emi
         }
     }
     rep.add("corpus", cases.len() as u64);
-    let n = if thorough { 4000 } else { 250 };
+    let n = if thorough { 4000 } else { 600 };
     let rng0 = Rng::new(seed ^ 0x5eed);
     for i in 0..n {
         let mut rng = rng0.fork(i as u64);
